@@ -191,6 +191,12 @@ func runC11(c *core.Ctx) {
 							c.OK("R11b", key, core.InstrPos(in), "declared constant / forwarded parameter")
 							continue
 						}
+						// a callee that only ever compares the parameter (a type test such as "is the candidate an
+						// attribute?") cannot create a node of that type: the constant is a pattern, not a node's type
+						if callee := cc.StaticCallee(); callee != nil && g5ParamCompareOnly(callee, i, map[*ssa.Parameter]bool{}) {
+							c.OK("R11b", key, core.InstrPos(in), "the callee only compares the node type it is handed (no node is typed with it)")
+							continue
+						}
 						// AttributeNode flows into a call: judged by the token walk below
 						attrSites = append(attrSites, attrSite{readerOf(f), f, x})
 					}
